@@ -219,6 +219,7 @@ func (w *bworld) setVal(i int, power int64, bonded bool) {
 	sk := w.app.StakingKeeper
 	if old, found := sk.GetValidator(w.ctx, w.vals[i]); found {
 		sk.DeleteValidatorByPowerIndex(w.ctx, old)
+		sk.DeleteLastValidatorPower(w.ctx, w.vals[i])
 	}
 	v, err := stakingtypes.NewValidator(w.vals[i], w.pks[i], stakingtypes.Description{})
 	if err != nil {
@@ -228,13 +229,74 @@ func (w *bworld) setVal(i int, power int64, bonded bool) {
 	tok.Add(tok, new(big.Int).Div(pow18b, big.NewInt(10)))
 	v.Tokens = sdk.NewIntFromBigInt(tok)
 	v.DelegatorShares = sdk.NewDecFromBigInt(tok)
-	if bonded {
-		v.Status = stakingtypes.Bonded
-	} else {
-		v.Status = stakingtypes.Unbonded
+	if err := sk.SetValidatorByConsAddr(w.ctx, v); err != nil {
+		panic(err)
 	}
+	if bonded {
+		// a bonded validator as the staking EndBlocker leaves it: status Bonded, in the power index, its power recorded
+		// as last power, its tokens in the bonded pool
+		v.Status = stakingtypes.Bonded
+		sk.SetValidator(w.ctx, v)
+		sk.SetValidatorByPowerIndex(w.ctx, v)
+		if power > 0 {
+			sk.SetLastValidatorPower(w.ctx, w.vals[i], power)
+		}
+		coins := sdk.NewCoins(sdk.NewCoin(sk.BondDenom(w.ctx), v.Tokens))
+		if err := w.app.BankKeeper.MintCoins(w.ctx, ethtypes.ModuleName, coins); err != nil {
+			panic(err)
+		}
+		if err := w.app.BankKeeper.SendCoinsFromModuleToModule(w.ctx, ethtypes.ModuleName, stakingtypes.BondedPoolName, coins); err != nil {
+			panic(err)
+		}
+		return
+	}
+	// not bonded: a validator that was jailed some blocks ago — jailed, unbonding, not in the power index
+	v.Status = stakingtypes.Unbonding
+	v.Jailed = true
 	sk.SetValidator(w.ctx, v)
-	sk.SetValidatorByPowerIndex(w.ctx, v)
+}
+
+// jail / unjail / stakeend: the real staking keeper's Jail, Unjail and validator-set update of its EndBlocker.
+// Jail takes the validator out of the power index at once while its status stays Bonded until the next stakeend.
+func (w *bworld) jail(i int) string {
+	sk := w.app.StakingKeeper
+	v, found := sk.GetValidator(w.ctx, w.vals[i])
+	if !found || v.Jailed {
+		return "noop"
+	}
+	return protectStr(func() string {
+		ca, err := v.GetConsAddr()
+		if err != nil {
+			panic(err)
+		}
+		sk.Jail(w.ctx, ca)
+		return "ok"
+	}, "panic")
+}
+
+func (w *bworld) unjail(i int) string {
+	sk := w.app.StakingKeeper
+	v, found := sk.GetValidator(w.ctx, w.vals[i])
+	if !found || !v.Jailed || !v.IsBonded() {
+		return "noop" // only a validator jailed earlier in this block (status still Bonded) is unjailed here
+	}
+	return protectStr(func() string {
+		ca, err := v.GetConsAddr()
+		if err != nil {
+			panic(err)
+		}
+		sk.Unjail(w.ctx, ca)
+		return "ok"
+	}, "panic")
+}
+
+func (w *bworld) stakeEnd() string {
+	return protectStr(func() string {
+		if _, err := w.app.StakingKeeper.ApplyAndReturnValidatorSetUpdates(w.ctx); err != nil {
+			return "err"
+		}
+		return "ok"
+	}, "panic")
 }
 
 func classify(err error) string {
@@ -358,14 +420,19 @@ func (w *bworld) prophecy(id string) (oracletypes.Prophecy, bool) {
 	return w.app.OracleKeeper.GetProphecy(w.ctx, id)
 }
 
+// dumpVals: id : power : counted by GetBondedValidatorsByPower (the power-index view) : status Bonded (GetValidator)
 func (w *bworld) dumpVals() string {
+	counted := map[string]bool{}
+	for _, v := range w.app.StakingKeeper.GetBondedValidatorsByPower(w.ctx) {
+		counted[v.OperatorAddress] = true
+	}
 	var xs []string
 	for i, va := range w.vals {
 		v, found := w.app.StakingKeeper.GetValidator(w.ctx, va)
 		if !found {
 			continue
 		}
-		xs = append(xs, fmt.Sprintf("%d:%d:%s", i, v.PotentialConsensusPower(sdk.DefaultPowerReduction), b2s(v.IsBonded())))
+		xs = append(xs, fmt.Sprintf("%d:%d:%s:%s", i, v.PotentialConsensusPower(sdk.DefaultPowerReduction), b2s(counted[va.String()]), b2s(v.IsBonded())))
 	}
 	return listOrDash(xs)
 }
@@ -387,9 +454,13 @@ func b2s(b bool) string {
 
 // bank view: every non-zero balance and supply, as maps "acct:denom" -> amount, "denom" -> amount
 func (w *bworld) bankView() (map[string]*big.Int, map[string]*big.Int) {
+	bond := w.app.StakingKeeper.BondDenom(w.ctx) // staking pools (environment) hold it; no bridge message touches it
+	if bond == "rowan" || bond == "ceth" {
+		panic("bond denom collides with a bridge denom")
+	}
 	bal := map[string]*big.Int{}
 	w.app.BankKeeper.IterateAllBalances(w.ctx, func(a sdk.AccAddress, c sdk.Coin) bool {
-		if !c.Amount.IsZero() {
+		if !c.Amount.IsZero() && c.Denom != bond {
 			bal[w.acctAlias(a)+":"+c.Denom] = c.Amount.BigInt()
 		}
 		return false
@@ -400,7 +471,7 @@ func (w *bworld) bankView() (map[string]*big.Int, map[string]*big.Int) {
 		panic(err)
 	}
 	for _, c := range coins {
-		if !c.Amount.IsZero() {
+		if !c.Amount.IsZero() && c.Denom != bond {
 			sup[c.Denom] = c.Amount.BigInt()
 		}
 	}
@@ -587,6 +658,7 @@ func (x *bexec) exec(line string) {
 		w.reset()
 		x.emit(line, "ok", "reset", false)
 		x.chkWlView() // a fresh world: nothing of an earlier world may be visible
+		x.chkPauseView()
 		return
 	case "restart":
 		pb, rb := w.dumpProphecies(), w.dumpBridgeRest()
@@ -597,6 +669,15 @@ func (x *bexec) exec(line string) {
 	case "val":
 		w.setVal(atoi(t[1]), int64(atoi(t[2])), t[3] == "1")
 		x.emit(line, "ok", "val", false)
+	case "jail":
+		ans := w.jail(atoi(t[1]))
+		x.emit(line, ans, "jail."+ans, ans == "ok")
+	case "unjail":
+		ans := w.unjail(atoi(t[1]))
+		x.emit(line, ans, "unjail."+ans, ans == "ok")
+	case "stakeend":
+		ans := w.stakeEnd()
+		x.emit(line, ans, "stakeend."+ans, true)
 	case "fund":
 		coins := sdk.NewCoins(sdk.NewCoin(t[2], sdk.NewIntFromBigInt(bigOf(t[3]))))
 		if err := w.app.BankKeeper.MintCoins(w.ctx, ethtypes.ModuleName, coins); err != nil {
@@ -681,6 +762,9 @@ func (x *bexec) exec(line string) {
 	if t[0] == "wlset" || t[0] == "txm" || t[0] == "restart" || t[0] == "blk" || (t[0] == "tx" && t[1] == "wl") {
 		x.chkWlView()
 	}
+	if t[0] == "txm" || t[0] == "restart" || t[0] == "blk" || (t[0] == "tx" && t[1] == "pause") {
+		x.chkPauseView()
+	}
 }
 
 func (x *bexec) obs() {
@@ -747,6 +831,21 @@ func (x *bexec) endOfExecution(rep int) {
 		return
 	}
 	x.emit(fmt.Sprintf("chk storebytes tag=store.bytes-equal-across-executions first=%s now=%s", w.storeFirst, d), "true", "chk.storebytes", true)
+}
+
+// pausedStored reads the pause flag straight from the ethbridge store
+func (w *bworld) pausedStored() bool {
+	bz := w.ctx.KVStore(w.app.GetKey(ethtypes.StoreKey)).Get(ethtypes.PausePrefix)
+	var p ethtypes.Pause
+	w.app.AppCodec().MustUnmarshal(bz, &p)
+	return p.IsPaused
+}
+
+// the pause flag the keeper answers with against the flag the multistore holds
+func (x *bexec) chkPauseView() {
+	w := x.w
+	view, stored := w.app.EthbridgeKeeper.IsPaused(w.ctx), w.pausedStored()
+	x.emit(fmt.Sprintf("chk pauseview tag=ethbridge.pause.keeper-view-equals-store view=%s stored=%s", b2s(view), b2s(stored)), "true", "chk.pauseview", stored)
 }
 
 // dumpWlStored reads the whitelist straight from the oracle store
@@ -901,7 +1000,7 @@ func (x *bexec) execTx(line, kind string, t []string) {
 				Amount: sdk.NewIntFromBigInt(bigOf(t[3])), Symbol: t[4], CethAmount: sdk.NewIntFromBigInt(bigOf(t[5]))}
 		}
 		k := w.app.EthbridgeKeeper
-		pausedB := k.IsPaused(w.ctx)
+		pausedB := w.pausedStored() // the committed flag, not the keeper's answer
 		blB := k.GetBlacklist(w.ctx)
 		recvB := "-"
 		if k.IsCethReceiverAccountSet(w.ctx) {
@@ -989,6 +1088,10 @@ func (x *bexec) chkClaim(t []string, id string, pb oracletypes.Prophecy, foundB 
 				wl[w.vals[i].String()] = true
 			}
 		}
+		countedNow := map[string]bool{}
+		for _, v := range w.app.StakingKeeper.GetBondedValidatorsByPower(w.ctx) {
+			countedNow[v.OperatorAddress] = true
+		}
 		for vb := range pa.ValidatorClaims {
 			va, _ := sdk.ValAddressFromBech32(vb)
 			v, found := w.app.StakingKeeper.GetValidator(w.ctx, va)
@@ -998,6 +1101,8 @@ func (x *bexec) chkClaim(t []string, id string, pb oracletypes.Prophecy, foundB 
 			}
 			if !found || !v.IsBonded() {
 				shape = "claimant-unbonded"
+			} else if !countedNow[vb] {
+				shape = "claimant-jailed-not-in-power-index"
 			}
 		}
 		x.emit(fmt.Sprintf("chk thr tag=oracle.FindHighestClaim.threshold.%s vals=%s wl=%s p=%s", shape, w.dumpVals(), w.dumpWlStored(), w.dumpProphecy(pa)),
